@@ -13,7 +13,10 @@ import Qryn.Sql.Sem
     * aggregates: `COUNT()/count()`, `sum`, `min`, `max`, `avg`, `any` (first row), `argMin/argMax`
       (value at the least/greatest key, first such row), `countMerge` (sum of the partial counts).
       Float64 arithmetic is exact rational arithmetic here: no IEEE rounding, no NaN/inf (a division by
-      zero yields null). `varPop`/`stddevPop`/`quantile` are not interpreted (null).
+      zero yields null). `varPop` is the population variance (exact), `stddevPop` the oracle `sqrt` of it (the square
+      root is not a rational function: uninterpreted, the same function on the LogQL side), `quantile(φ)(x)` the oracle
+      `quantile φ` of the group's values in the order the rows are read (ClickHouse's reservoir/interpolation algorithm is
+      not interpreted; the same function on the LogQL side).
     * `HAVING` filters the output rows (also without GROUP BY, where it acts on the projected rows).
     * `arraySlice(arraySort(λ, groupArray((v, fp[, labels]))), 1, k)` and `ARRAY JOIN`: see `topkAgg`,
       `sourceRowsA`.
@@ -31,6 +34,7 @@ def hasAgg : Expr → Bool
   | .call fn args => aggNames.contains fn ||
       (match args with | [.call fn' _] => aggNames.contains fn' | _ => false)
   | .topkSlice _ _ _ => true
+  | .quantileAgg _ _ _ => true
   | _ => false
 
 /-- first pass: the non-aggregate aliased columns evaluated on the source row -/
@@ -59,6 +63,16 @@ def avgAgg (vs : List Val) : Val :=
   | some (q :: qs) => .rat (ratSum (q :: qs) / ((q :: qs).length : Int))
   | _ => .null
 def anyAgg (vs : List Val) : Val := vs.head?.getD .null
+/-- population variance of a non-empty list: mean of the squared deviations from the mean -/
+def varPopRat (qs : List Rat) : Rat :=
+  let m := ratSum qs / (qs.length : Int)
+  ratSum (qs.map (fun x => (x - m) * (x - m))) / (qs.length : Int)
+def varPopAgg (vs : List Val) : Val := match ratsOf vs with | some (q :: qs) => .rat (varPopRat (q :: qs)) | _ => .null
+def stddevPopAgg (o : Oracles) (vs : List Val) : Val :=
+  match ratsOf vs with | some (q :: qs) => .rat (o.sqrt (varPopRat (q :: qs))) | _ => .null
+/-- `quantile(φ)(x)`: the oracle applied to the numeric values of the group, in row order -/
+def quantileAggV (o : Oracles) (phi : Rat) (vs : List Val) : Val :=
+  match ratsOf vs with | some (q :: qs) => .rat (o.quantile phi (q :: qs)) | _ => .null
 /-- `countMerge`: the partial counts of the group added up -/
 def countMergeAgg (vs : List Val) : Val :=
   match vs.mapM (fun | .int i => some i | _ => none) with
@@ -117,8 +131,8 @@ def aggCall (o : Oracles) (env : Env) (rows : List Row) (fn : String) (args : Li
   | "countMerge", [e] => some (countMergeAgg (rows.map (fun r => evalE o env r e)))
   | "argMin", [v, k] => some (argMinAgg (rows.map (fun r => (evalE o env r v, evalE o env r k))))
   | "argMax", [v, k] => some (argMaxAgg (rows.map (fun r => (evalE o env r v, evalE o env r k))))
-  | "varPop", [_] => some .null
-  | "stddevPop", [_] => some .null
+  | "varPop", [e] => some (varPopAgg (rows.map (fun r => evalE o env r e)))
+  | "stddevPop", [e] => some (stddevPopAgg o (rows.map (fun r => evalE o env r e)))
   | _, _ => none
 
 /-- a select-list expression over a group: `rows` = the group's rows as aggregate arguments see them,
@@ -128,6 +142,8 @@ def evalAgg (o : Oracles) (env : Env) (rows : List Row) (first : Row) : Expr →
   | .mulOp x y => mulVal (evalAgg o env rows first x) (evalAgg o env rows first y)
   | .divOp x y => divVal (evalAgg o env rows first x) (evalAgg o env rows first y)
   | .topkSlice isTop hasLabels k => topkAgg isTop hasLabels k rows
+  | .quantileAgg units scale col =>
+    quantileAggV o ((units : Int) / ((10 ^ scale : Nat) : Int)) (rows.map (fun r => r.get col))
   | .call fn args =>
     match aggCall o env rows fn args with
     | some v => v
